@@ -96,6 +96,21 @@ def _others(args):
         r = plots.show_multiple_phasePlot([p[0] for p in pts], [p[1] for p in pts], ['a', 'b'], 'MT2', True, 1, 1, 8, True)
         if r is None or _fig_info(r)['offsets'] != pts:
             problems.append('plots.show_multiple_phasePlot markers')
+        # label-less calls with different numbers of points, one after the other (shared default arguments)
+        for objs in ([o, o2, o], [o, o2], [o], [o2, o, o2, o]):
+            for nm, fn_, getp in (('plots.show_multiple_phasePlot2', plots.show_multiple_phasePlot2,
+                                   lambda x: (fnum(x.get_fraction_positive()), fnum(x.get_fraction_negative()))),
+                                  ('plots.show_multiple_uverskyPlot2', plots.show_multiple_uverskyPlot2,
+                                   lambda x: (fnum(x.get_mean_net_charge()), fnum(x.get_uversky_hydropathy())))):
+                st_, r_ = call(lambda: fn_(objs, getFig=True), seconds=60)
+                if st_ != 'ok' or r_ is None:
+                    problems.append({nm: 'label-less call on %d sequences failed' % len(objs), 'result': [st_, repr(r_)[:120]]})
+                    import matplotlib.pyplot as _p
+                    _p.close('all')
+                    continue
+                i = _fig_info(r_)
+                if i['offsets'] != [getp(x) for x in objs]:
+                    problems.append({nm: i['offsets'], 'expected': [getp(x) for x in objs]})
         upts = [(fnum(x.get_mean_net_charge()), fnum(x.get_uversky_hydropathy())) for x in (o, o2)]
         r = plots.show_multiple_uverskyPlot2([o, o2], ['a', 'b'], 'MU', True, 1, 1, 8, True)
         if r is None:
